@@ -20,6 +20,6 @@ CONSTANTS
   Modes <- MCModes
   MaxSteps = 3
   ModelDeviations = TRUE
-  Follow <- MCFollowD1D2
+  Follow <- MCFollowNone
   EmitAll = TRUE
 INVARIANTS TypeOK NoEffectOnReject OneLogPerWrite DefaultsOnlyAtCreation NoAccountDeleted StrictRequiresVersion StrictChartEnforced StrictHasNoDeviation AuditAcceptsAll AuditRelaxesStrict
